@@ -34,6 +34,7 @@ WHAT = {
     ("scope", "ucap"): "a closure called while a captured variable is unbound gets a private cell: nonlocal assignments are lost",
     ("scope", "excas"): "`except .. as x` binds x in the function's own table (ignoring global/nonlocal) and removes the variable's cell afterwards",
     ("scope", "ndflt"): "a default expression of an inner definition that reads a variable of a function further out raises NameError (only names in bodies and decorators are captured)",
+    ("scope", "dyncap"): "free variables are looked up in the tables of the CALLERS on the stack when a function is defined (dynamic scoping): a caller's local shadows the global",
     ("scope", "unexplained"): "tracer log is not the one the scoping machine computes",
     ("bind", "unexplained"): "call outcome is not the one Bind yields",
 }
@@ -341,6 +342,19 @@ def witnesses():
         S.new_code("func", body=[{"k": "def", "x": "f2", "c": 4, "decos": [], "g": 0},
                                  {"k": "ret", "e": call(N("f2")), "g": 0}]),
         S.new_code("func", sig=sig(["p0"], 1), dflt=[N("v0")], body=[{"k": "ret", "e": N("p0"), "g": 0}])])
+    # dyncap: v0 = 1; def f0(): def f1(): return v0 ; return f1
+    #         def f2(): v0 = 2; def f1(): return v0 ; return f0()()      (f2's v0 is a cell and f2 is on the stack)
+    add("dyncap", [
+        S.new_code("module", body=[{"k": "assign", "x": "v0", "e": I(1), "g": 0},
+                                   {"k": "def", "x": "f0", "c": 2, "decos": [], "g": 0},
+                                   {"k": "def", "x": "f2", "c": 4, "decos": [], "g": 0},
+                                   {"k": "expr", "e": ev(1, call(N("f2"))), "g": 2}]),
+        S.new_code("func", body=[{"k": "def", "x": "f1", "c": 3, "decos": [], "g": 0}, {"k": "ret", "e": N("f1"), "g": 0}]),
+        S.new_code("func", body=[{"k": "ret", "e": N("v0"), "g": 0}]),
+        S.new_code("func", body=[{"k": "assign", "x": "v0", "e": I(2), "g": 0},
+                                 {"k": "def", "x": "f1", "c": 5, "decos": [], "g": 0},
+                                 {"k": "ret", "e": call(call(N("f0"))), "g": 0}]),
+        S.new_code("func", body=[{"k": "ret", "e": N("v0"), "g": 0}])])
     return ws
 
 
